@@ -822,6 +822,8 @@ impl TokenParser {
         self.max_tokens_total -= 1;
 
         if self.eos_tokens.contains(&token) {
+            // scan_eos() may flush the current lexeme: memoized answers are stale after it
+            self.clear_caches();
             if self.parser.scan_eos() {
                 // it got scanned correctly, so we remove it
                 // this only happens for gen() terminated by EOS
